@@ -4,6 +4,7 @@ import json, os
 V = os.path.dirname(os.path.dirname(os.path.abspath(__file__)))
 # property -> (technique, DESIGN section)
 CLAIMED = {
+ "C02": ("generated expression-tree programs compiled once on Fastor tensors and once on scalars (same text), compared per flat position bit for bit / within the stated rounding, rapidcheck-driven data incl. IEEE specials", "5/C02"),
  "C08": ("rapidcheck-driven lane-by-lane differential test of every SIMDVector<T,ABI> operation against plain scalar code, with guard-page placed loads/stores and all masks", "5/C08"),
  "C01": ("rapidcheck-driven differential test against an exact integer / long-double triple-loop oracle over generated (type,M,K,N,form) instances under every ISA", "5/C01"),
 }
